@@ -286,3 +286,7 @@ mod tests {
 		}
 	}
 }
+
+#[cfg(feature = "breard_r_acmed_verif")]
+#[path = "/verif/probe/http_probe.rs"]
+mod verif;
